@@ -25,14 +25,14 @@ type vTransport struct {
 	chunk   int   // if > 0: Read returns at most this many bytes
 	endErr  error // error reported at end of input (default io.EOF)
 
-	out         []byte // everything written to the client
-	writeCalls  int
-	failWriteAt int  // index of the Write call that fails (-1: never)
-	shortWrite  bool // a failing write first accepts a nondeterministic prefix
-	closed      bool
-	closeCalls  int
-	deadlines   int
-	readCalls   int
+	out             []byte // everything written to the client
+	writeCalls      int
+	failWriteAt     int  // index of the Write call that fails (-1: never)
+	shortWrite      bool // a failing write first accepts a nondeterministic prefix
+	closed          bool
+	closeCalls      int
+	deadlines       int
+	readCalls       int
 	writeAfterClose int
 }
 
@@ -100,11 +100,11 @@ func (t *vTransport) Close() error {
 	t.closed = true
 	return nil
 }
-func (t *vTransport) LocalAddr() net.Addr                { return vAddr{} }
-func (t *vTransport) RemoteAddr() net.Addr               { return vAddr{} }
-func (t *vTransport) SetDeadline(time.Time) error        { t.deadlines++; return nil }
-func (t *vTransport) SetReadDeadline(time.Time) error    { t.deadlines++; return nil }
-func (t *vTransport) SetWriteDeadline(time.Time) error   { t.deadlines++; return nil }
+func (t *vTransport) LocalAddr() net.Addr              { return vAddr{} }
+func (t *vTransport) RemoteAddr() net.Addr             { return vAddr{} }
+func (t *vTransport) SetDeadline(time.Time) error      { t.deadlines++; return nil }
+func (t *vTransport) SetReadDeadline(time.Time) error  { t.deadlines++; return nil }
+func (t *vTransport) SetWriteDeadline(time.Time) error { t.deadlines++; return nil }
 
 // vConfig builds an ECH config for key i with the given id, through the reference
 // layout of draft-ietf-tls-esni section 4 (independent of ConfigSpec.Bytes).
